@@ -74,7 +74,10 @@ func robustOne(rc *RunCtx) *Violation {
 	o, variant := drawBuild(w)
 	delims := runDelims(rc.seed)
 	var p PH
-	if pn := catch(func() { p = w.build(o) }); pn != "" {
+	simrt.ShuffleMaps = true
+	pn := catch(func() { p = w.build(o) })
+	simrt.ShuffleMaps = false
+	if pn != "" {
 		return &Violation{Signature: "parse/" + w.name + "/build-panic", Detail: pn}
 	}
 	rc.agg.Worlds[w.name]++
